@@ -17,6 +17,7 @@ PRELUDE = r'''
 #include <variant>
 @INCLUDES@
 extern "C" void* diplomat_alloc(size_t size, size_t align);
+extern "C" void diplomat_free(void* p, size_t size, size_t align);
 static void px(uint64_t v, int digits) { printf("%0*llx", digits, (unsigned long long)v); }
 static void pr(int8_t v) { px((uint8_t)v, 2); }
 static void pr(uint8_t v) { px(v, 2); }
@@ -128,6 +129,7 @@ class CppEmitter:
                 return "%s()" % cty
             a = self.fresh("own")
             pre.append("%s* %s = static_cast<%s*>(diplomat_alloc(%d * sizeof(%s), alignof(%s)));" % (ety, a, ety, len(items), ety, ety))
+            post.append(("owned", a, len(items), ety))
             for i, x in enumerate(items):
                 pre.append("%s[%d] = %s;" % (a, i, cpp_prim_lit(t[1], x)))
             return "%s(%s, %d)" % (cty, a, len(items))
@@ -145,6 +147,7 @@ class CppEmitter:
             a = self.fresh("str")
             if k == "ostr":
                 pre.append("%s* %s = static_cast<%s*>(diplomat_alloc(%d * sizeof(%s), alignof(%s)));" % (ety, a, ety, len(data), ety, ety))
+                post.append(("owned", a, len(data), ety))
             else:
                 pre.append("%s* %s = static_cast<%s*>(malloc(%d * sizeof(%s)));" % (ety, a, ety, len(data), ety))
                 post.append(("free", a))
@@ -361,6 +364,9 @@ class CppEmitter:
                 out.append("  free(%s);" % p[1])
             elif p[0] == "delete[]":
                 out.append("  delete[] %s;" % p[1])
+            elif p[0] == "owned" and st.get("rejected"):
+                # Rust never saw the call: the buffers it would have taken over are still the caller's
+                out.append("  diplomat_free(%s, %d * sizeof(%s), alignof(%s));" % (p[1], p[2], p[3], p[3]))
         out.append("}")
         return out
 
